@@ -148,6 +148,15 @@ type lexAPI struct {
 	converts bool
 	// returns accepted?, detail
 	f func(b []byte) (bool, string)
+	// std: for typed destinations, whether encoding/json accepts the document into the same type (a valid document of
+	// another shape is a type error for both, not a lexical matter)
+	std func(b []byte) bool
+}
+
+type lexFrame struct {
+	A interface{}            `json:"a"`
+	B []interface{}          `json:"b"`
+	M map[string]interface{} `json:"m"`
 }
 
 func errDetail(err error) string {
@@ -163,35 +172,62 @@ func errDetail(err error) string {
 }
 
 var lexAPIs = []lexAPI{
-	{"Valid", false, func(b []byte) (bool, string) { return sonic.Valid(b), "" }},
-	{"ValidString", false, func(b []byte) (bool, string) { return sonic.ValidString(strOf(b)), "" }},
-	{"ConfigStd.Valid", false, func(b []byte) (bool, string) { return sonic.ConfigStd.Valid(b), "" }},
-	{"Unmarshal.iface", true, func(b []byte) (bool, string) {
+	// typed containers with interface{} elements: the framing code of maps, slices, fixed arrays and structs (commas, colons,
+	// closing brackets) sees every string of the universe
+	{name: "Unmarshal.map[string]iface", f: func(b []byte) (bool, string) {
+		var v map[string]interface{}
+		err := sonic.Unmarshal(b, &v)
+		return err == nil, errDetail(err)
+	}, std: func(b []byte) bool { var v map[string]interface{}; return json.Unmarshal(b, &v) == nil }},
+	{name: "Unmarshal.[]iface", f: func(b []byte) (bool, string) {
+		var v []interface{}
+		err := sonic.Unmarshal(b, &v)
+		return err == nil, errDetail(err)
+	}, std: func(b []byte) bool { var v []interface{}; return json.Unmarshal(b, &v) == nil }},
+	{name: "Unmarshal.[1]iface", f: func(b []byte) (bool, string) {
+		var v [1]interface{}
+		err := sonic.Unmarshal(b, &v)
+		return err == nil, errDetail(err)
+	}, std: func(b []byte) bool { var v [1]interface{}; return json.Unmarshal(b, &v) == nil }},
+	{name: "Unmarshal.struct", f: func(b []byte) (bool, string) {
+		var v lexFrame
+		err := sonic.Unmarshal(b, &v)
+		return err == nil, errDetail(err)
+	}, std: func(b []byte) bool { var v lexFrame; return json.Unmarshal(b, &v) == nil }},
+	{name: "Unmarshal.map[string]map[string]iface", f: func(b []byte) (bool, string) {
+		var v map[string]map[string]interface{}
+		err := sonic.Unmarshal(b, &v)
+		return err == nil, errDetail(err)
+	}, std: func(b []byte) bool { var v map[string]map[string]interface{}; return json.Unmarshal(b, &v) == nil }},
+	{name: "Valid", converts: false, f: func(b []byte) (bool, string) { return sonic.Valid(b), "" }},
+	{name: "ValidString", converts: false, f: func(b []byte) (bool, string) { return sonic.ValidString(strOf(b)), "" }},
+	{name: "ConfigStd.Valid", converts: false, f: func(b []byte) (bool, string) { return sonic.ConfigStd.Valid(b), "" }},
+	{name: "Unmarshal.iface", converts: true, f: func(b []byte) (bool, string) {
 		var v interface{}
 		err := sonic.Unmarshal(b, &v)
 		return err == nil, errDetail(err)
 	}},
-	{"ConfigStd.Unmarshal.iface", true, func(b []byte) (bool, string) {
+	{name: "ConfigStd.Unmarshal.iface", converts: true, f: func(b []byte) (bool, string) {
 		var v interface{}
 		err := sonic.ConfigStd.Unmarshal(b, &v)
 		return err == nil, errDetail(err)
 	}},
-	{"UnmarshalString.iface", true, func(b []byte) (bool, string) {
+	{name: "UnmarshalString.iface", converts: true, f: func(b []byte) (bool, string) {
 		var v interface{}
 		err := sonic.UnmarshalString(strOf(b), &v)
 		return err == nil, errDetail(err)
 	}},
-	{"Unmarshal.RawMessage", false, func(b []byte) (bool, string) {
+	{name: "Unmarshal.RawMessage", converts: false, f: func(b []byte) (bool, string) {
 		var v json.RawMessage
 		err := sonic.Unmarshal(b, &v)
 		return err == nil, errDetail(err)
 	}},
-	{"Unmarshal.Unmarshaler", false, func(b []byte) (bool, string) {
+	{name: "Unmarshal.Unmarshaler", converts: false, f: func(b []byte) (bool, string) {
 		var v capture
 		err := sonic.Unmarshal(b, &v)
 		return err == nil, errDetail(err)
 	}},
-	{"Get", false, func(b []byte) (bool, string) {
+	{name: "Get", converts: false, f: func(b []byte) (bool, string) {
 		n, err := sonic.Get(b)
 		if err != nil {
 			return false, errDetail(err)
@@ -201,7 +237,7 @@ var lexAPIs = []lexAPI{
 		}
 		return true, ""
 	}},
-	{"GetFromString", false, func(b []byte) (bool, string) {
+	{name: "GetFromString", converts: false, f: func(b []byte) (bool, string) {
 		n, err := sonic.GetFromString(strOf(b))
 		if err != nil {
 			return false, errDetail(err)
@@ -211,12 +247,12 @@ var lexAPIs = []lexAPI{
 		}
 		return true, ""
 	}},
-	{"NewRaw.Check", false, func(b []byte) (bool, string) {
+	{name: "NewRaw.Check", converts: false, f: func(b []byte) (bool, string) {
 		n := ast.NewRaw(strOf(b))
 		err := n.Check()
 		return err == nil, errDetail(err)
 	}},
-	{"NewSearcher.GetByPath", false, func(b []byte) (bool, string) {
+	{name: "NewSearcher.GetByPath", converts: false, f: func(b []byte) (bool, string) {
 		s := ast.NewSearcher(strOf(b))
 		n, err := s.GetByPath()
 		if err != nil {
@@ -225,7 +261,7 @@ var lexAPIs = []lexAPI{
 		err = n.Check()
 		return err == nil, errDetail(err)
 	}},
-	{"decoder.Skip", false, func(b []byte) (bool, string) {
+	{name: "decoder.Skip", converts: false, f: func(b []byte) (bool, string) {
 		st, end := decoder.Skip(b)
 		if st < 0 {
 			return false, fmt.Sprint("code ", -st)
@@ -240,7 +276,7 @@ var lexAPIs = []lexAPI{
 		}
 		return true, ""
 	}},
-	{"Node.UnmarshalJSON.LoadAll", false, func(b []byte) (bool, string) {
+	{name: "Node.UnmarshalJSON.LoadAll", converts: false, f: func(b []byte) (bool, string) {
 		var n ast.Node
 		if err := n.UnmarshalJSON(b); err != nil {
 			return false, errDetail(err)
@@ -253,7 +289,7 @@ var lexAPIs = []lexAPI{
 		}
 		return true, ""
 	}},
-	{"Decoder.Decode.iface", true, func(b []byte) (bool, string) {
+	{name: "Decoder.Decode.iface", converts: true, f: func(b []byte) (bool, string) {
 		d := decoder.NewDecoder(strOf(b))
 		var v interface{}
 		err := d.Decode(&v)
@@ -270,12 +306,12 @@ var lexAPIs = []lexAPI{
 // APIs applicable only to documents generated under the "obj" prefix: the whole document is an
 // object whose only key does not match the destination's field, i.e. the tail is a skipped value.
 var lexSkipAPIs = []lexAPI{
-	{"Unmarshal.skipfield", false, func(b []byte) (bool, string) {
+	{name: "Unmarshal.skipfield", converts: false, f: func(b []byte) (bool, string) {
 		var v skipper
 		err := sonic.Unmarshal(b, &v)
 		return err == nil, errDetail(err)
 	}},
-	{"ConfigStd.Unmarshal.skipfield", false, func(b []byte) (bool, string) {
+	{name: "ConfigStd.Unmarshal.skipfield", converts: false, f: func(b []byte) (bool, string) {
 		var v skipper
 		err := sonic.ConfigStd.Unmarshal(b, &v)
 		return err == nil, errDetail(err)
@@ -366,6 +402,9 @@ func lexHandle(in []byte) []byte {
 			case c.V == "accept" && !acc:
 				if a.converts && !stdConverts(b) {
 					break // a conversion error (1e999 into float64), shared with encoding/json: C01/C19's business
+				}
+				if a.std != nil && !a.std(b) {
+					break // a valid document of another shape than the typed destination: a type error for both
 				}
 				kind = "valid_rejected"
 			case c.V == "reject" && acc:
